@@ -12,7 +12,7 @@ def gen_program(rng, nsetup):
         p = []
         for _ in range(rng.randint(1, 3)):
             r = rng.random()
-            h = rng.choice(handles + [nsetup + 5]) if handles else nsetup + 5
+            h = rng.choice(handles + [999]) if handles else 999   # 999: a handle that is never issued
             if r < 0.16:
                 p.append(["append"])
             elif r < 0.26:
